@@ -3,6 +3,9 @@
   constant.py                 ATTRS_POSITION, SINGLE_NUCLEOTIDE_SUBSTITUTION
   seqvar/VariantRecord.py     _VARIANT_TYPES; the `_type not in [...]` list of __init__ (no length check);
                               to_string: the literal '<FUSION>' and the list of types written as '<' + upper[:3] + '>'
+  seqvar/VariantRecord.py     info: the test deciding which keys are written as value + 1  (disjunction of atoms)
+  seqvar/io.py                parse_attrs: the test deciding which keys are read as value - 1 (disjunction of atoms);
+                              the rest of both loops is checked statement by statement
   seqvar/io.py                line_to_variant_record: the chain  alt == '<X>' -> (_type, end from attrs['END'] or start+1)
   circ/CircRNA.py             to_string: the six INFO keys in the order written, by the role of the value formatted
   circ/io.py                  line_to_circ_model: keys parsed as int lists, the INTRON key, the six keys looked up, by role
@@ -42,6 +45,38 @@ def find_func(tree, name, cls=None):
                     return m
         if not cls and isinstance(n, ast.FunctionDef) and n.name == name:
             return n
+    return None
+
+def kpred(node, var, consts):
+    """test over the key variable `var` -> list of atoms, or None if not understood.
+    atoms: ('in', [..]) | ('eq', s) | ('ends', s) | ('starts', s)"""
+    if isinstance(node, ast.BoolOp) and isinstance(node.op, ast.Or):
+        out = []
+        for v in node.values:
+            a = kpred(v, var, consts)
+            if a is None:
+                return None
+            out += a
+        return out
+    if isinstance(node, ast.Compare) and len(node.ops) == 1 and isinstance(node.left, ast.Name) and node.left.id == var:
+        op, rhs = node.ops[0], node.comparators[0]
+        if isinstance(op, ast.In):
+            l = str_list(rhs)
+            if l is None and ast.unparse(rhs) in consts and consts[ast.unparse(rhs)] is not None:
+                l = consts[ast.unparse(rhs)]
+            return [('in', l)] if l is not None else None
+        if isinstance(op, ast.Eq) and isinstance(rhs, ast.Constant) and isinstance(rhs.value, str):
+            return [('eq', rhs.value)]
+        return None
+    if isinstance(node, ast.Call) and isinstance(node.func, ast.Attribute) and isinstance(node.func.value, ast.Name) \
+            and node.func.value.id == var and node.func.attr in ('endswith', 'startswith') and len(node.args) == 1 \
+            and not node.keywords:
+        a = node.args[0]
+        kind = 'ends' if node.func.attr == 'endswith' else 'starts'
+        if isinstance(a, ast.Constant) and isinstance(a.value, str):
+            return [(kind, a.value)]
+        if isinstance(a, ast.Tuple) and all(isinstance(e, ast.Constant) and isinstance(e.value, str) for e in a.elts):
+            return [(kind, e.value) for e in a.elts]
     return None
 
 def translate(repo):
@@ -117,8 +152,48 @@ def translate(repo):
     out['FUSION_ALT'] = fusion_alt
     out['UPPER3_TYPES'] = three
 
+    # ---- VariantRecord.info : which keys are shifted on write
+    consts = {'constant.ATTRS_POSITION': out.get('ATTRS_POSITION')}
+    wpred = None
+    try:
+        f = find_func(t, 'info', 'VariantRecord')
+        body = [n for n in f.body if not (isinstance(n, ast.Expr) and isinstance(n.value, ast.Constant))]
+        assert ast.unparse(body[0]) == "out = ''" and ast.unparse(body[2]) == "return out.rstrip(';')"
+        loop = body[1]
+        assert isinstance(loop, ast.For) and ast.unparse(loop.target) == '(key, val)' and ast.unparse(loop.iter) == 'self.attrs.items()'
+        chain = loop.body[0]
+        assert isinstance(chain, ast.If) and [ast.unparse(x) for x in chain.body] == ['val = str(int(val) + 1)']
+        c1 = chain.orelse
+        assert len(c1) == 1 and isinstance(c1[0], ast.If) and ast.unparse(c1[0].test) == 'isinstance(val, list)' and not c1[0].orelse
+        assert [ast.unparse(x) for x in c1[0].body] == ["val = ','.join([str(x) for x in val])"]
+        assert [ast.unparse(x) for x in loop.body[1:]] == ["out += f'{key.upper()}={val};'"]
+        wpred = kpred(chain.test, 'key', consts)
+        assert wpred is not None, 'shift test of the writer: ' + ast.unparse(chain.test)
+    except Exception as e:  # noqa
+        fail('VariantRecord.info has an unexpected shape: %r' % (e,))
+        wpred = None
+    out['W_SHIFT'] = wpred
+
     # ---- seqvar/io.py : alt -> (type, end from END?)
     t = parse('moPepGen/seqvar/io.py')
+    rpred = None
+    try:
+        f = find_func(t, 'parse_attrs')
+        body = [n for n in f.body if not (isinstance(n, ast.Expr) and isinstance(n.value, ast.Constant))]
+        assert ast.unparse(body[0]) == 'attrs = {}' and ast.unparse(body[2]) == 'return attrs'
+        loop = body[1]
+        assert isinstance(loop, ast.For) and ast.unparse(loop.target) == 'field' and ast.unparse(loop.iter) == "info.split(';')"
+        st = loop.body
+        assert ast.unparse(st[0]) == "key, val = field.split('=')"
+        assert ast.unparse(st[1]) == "val = val.strip('\"')"
+        assert isinstance(st[2], ast.If) and not st[2].orelse and [ast.unparse(x) for x in st[2].body] == ['val = str(int(val) - 1)']
+        assert ast.unparse(st[3]) == 'attrs[key] = val' and len(st) == 4
+        rpred = kpred(st[2].test, 'key', consts)
+        assert rpred is not None, 'shift test of the reader: ' + ast.unparse(st[2].test)
+    except Exception as e:  # noqa
+        fail('seqvar.io.parse_attrs has an unexpected shape: %r' % (e,))
+        rpred = None
+    out['R_SHIFT'] = rpred
     f = find_func(t, 'line_to_variant_record')
     table = None
     try:
@@ -225,7 +300,7 @@ def render(ok, notes, o):
     L = []
     w = L.append
     w('(* GENERATED by harness/translate/gvfconst.py from the source text of the repo -- do not edit *)')
-    w('From MoPep Require Import Model.Base.')
+    w('From MoPep Require Import Model.Base Model.Gvf.')
     w('Open Scope Z_scope.')
     for n in notes:
         w('(* NOT UNDERSTOOD: %s *)' % n.replace('*)', '* )').replace('(*', '( *'))
@@ -248,6 +323,20 @@ def render(ok, notes, o):
         w(';\n'.join('  (%s, (%s, %s)) (* %s -> %s, end %s *)' % (S(a), S(ty), 'true' if fe else 'false', a, ty,
                                                                      "from attrs['END']" if fe else '= start + 1') for a, ty, fe in t))
         w('].')
+    def pred(name, key):
+        v = o.get(key)
+        if v is None:
+            w('Definition %s : list katom := [KUnknown].' % name)
+            return
+        atoms = []
+        for kind, x in v:
+            if kind == 'in':
+                atoms.append('KIn %s' % SL(x))
+            else:
+                atoms.append('%s %s' % ({'eq': 'KEq', 'ends': 'KEnds', 'starts': 'KStarts'}[kind], S(x)))
+        w('Definition %s : list katom := [%s]. (* %s *)' % (name, '; '.join(atoms), ' or '.join('%s %s' % (k, x) for k, x in v)))
+    pred('writer_shift', 'W_SHIFT')
+    pred('reader_shift', 'R_SHIFT')
     lst('circ_wkeys', 'CIRC_WKEYS')
     lst('circ_rkeys', 'CIRC_RKEYS')
     return '\n'.join(L) + '\n'
